@@ -1,0 +1,62 @@
+//go:build verif
+
+package value
+
+// Specification vocabulary and contracts checked by /verif/hvc (build tag
+// verif only; see /verif/DESIGN.md, C02/C04/C09).
+
+/*@ assume-invariant []*interpreter/value.Value elems-nonnil @*/
+
+/*@ assume-invariant map[string]*interpreter/value.Value elems-nonnil @*/
+
+// The member tables are built from closures and constants; building one has
+// no effect on existing state (assumed).
+
+/*@ template for (self Value*) Fields
+    serves C02, C09
+    trusted
+    modifies nothing
+    ensures ret1 == nil ==> ret0 != nil
+    ensures ret1 != nil ==> *ret1 != nil
+@*/
+
+// indexable: the operand kinds the analyzer admits for `base[index]`.
+func indexable(b Value, i Value) bool {
+	switch b.Kind() {
+	case ObjectValueKind, AnyObjectValueKind:
+		_, ok := i.(ValueString)
+		return ok
+	case ListValueKind:
+		l, ok := b.(ValueList)
+		_, ok2 := i.(ValueInt)
+		return ok && ok2 && l.Values != nil
+	case StringValueKind:
+		_, ok := b.(ValueString)
+		_, ok2 := i.(ValueInt)
+		return ok && ok2
+	}
+	return false
+}
+
+// wrapIndex: negative indices count from the end.
+func wrapIndex(i int64, n int) int64 {
+	if i < 0 {
+		return i + int64(n)
+	}
+	return i
+}
+
+func inBounds(i int64, n int) bool { return 0 <= wrapIndex(i, n) && wrapIndex(i, n) < int64(n) }
+
+/*@ func IndexValue
+    serves C02, C04, C09
+    dyncalls-pure
+    modifies nothing
+    requires base != nil && *base != nil && index != nil && *index != nil && span != nil
+    requires indexable(*base, *index)
+    ensures @list-element ret1 == nil && (*base).Kind() == ListValueKind ==> inBounds((*index).(ValueInt).Inner, len(*(*base).(ValueList).Values)) && ret0 == (*(*base).(ValueList).Values)[wrapIndex((*index).(ValueInt).Inner, len(*(*base).(ValueList).Values))]
+    ensures @list-bounds (*base).Kind() == ListValueKind && !inBounds((*index).(ValueInt).Inner, len(*(*base).(ValueList).Values)) ==> ret1 != nil
+    ensures @string-bounds (*base).Kind() == StringValueKind && !inBounds((*index).(ValueInt).Inner, len((*base).(ValueString).Inner)) ==> ret1 != nil
+    ensures @string-element ret1 == nil && (*base).Kind() == StringValueKind ==> inBounds((*index).(ValueInt).Inner, len((*base).(ValueString).Inner))
+    ensures @result ret1 == nil ==> ret0 != nil
+@*/
